@@ -126,7 +126,10 @@ def _normalize_pad_width(
                         " sequence of pad widths along each"
                         " direction.")
 
-    return processed_pad_widths
+    # (ints: widths given as fixed-width NumPy integers wrap around when
+    # added to the axis lengths)
+    return [(int(before), int(after))
+            for before, after in processed_pad_widths]
 
 
 def pad(array: Array,
